@@ -701,3 +701,6 @@ func VerifImageExtract(n *html.Node, pageURL *nurl.URL) (string, *html.Node, *ht
 // VerifLazyAtoms: what the image extractor's three regular expressions answer for an attribute
 // value (looks like an image source; looks like a srcset; is an acceptable src).
 func VerifLazyAtoms(v string) (bool, bool, bool) { return embed.VerifLazyAtoms(v) }
+
+// VerifIsForeignRawText is domutil.IsForeignRawTextElement.
+func VerifIsForeignRawText(n *html.Node) bool { return domutil.IsForeignRawTextElement(n) }
